@@ -14,7 +14,7 @@ RULE = ("seeded trees (classes of 1..N files over several dirs/roots, hard links
 
 def main(tier, seed, cases=None):
     build.build_rel()
-    n = cases or (160 if tier == "quick" else 3000)
+    n = cases or (600 if tier == "quick" else 12000)
     chk = common.Check("C03", "exploration", tier, seed, RULE,
                        ["reference partition groups by SHA-256 of the bytes read by Python",
                         "replica rule transcribed from README 'Handling links'"])
